@@ -3,28 +3,22 @@ package main
 import (
 	"fmt"
 	"strings"
-
-	"github.com/jf-tech/omniparser/idr"
 )
 
+// scratch command for ad-hoc experiments while building checks; not used by any registered check
 func init() {
 	cmds["probe"] = func(args []string) int {
-		for _, doc := range []string{
-			`<root xmlns:p="urn:p"><r:x xmlns:r="urn:p"/><p:c/></root>`,
-			`<root xmlns:p="urn:p"><p:x xmlns:p="urn:other"><p:y/></p:x><p:c/></root>`,
-			`<root xmlns="urn:d"><x xmlns=""><y/></x><c/></root>`,
-			`<root xmlns:p="urn:p" xmlns:q="urn:p"><p:a/><q:a/></root>`,
+		for _, sc := range []string{
+			`{"parser_settings": {"version": "omni.2.1", "file_format_type": "xml"}, "transform_declarations": {"FINAL_OUTPUT": {"xpath": "/r/a[b mod 2 = 1]", "object": {"x": {"xpath": "b"}}}}}`,
+			`{"parser_settings": {"version": "omni.2.1", "file_format_type": "xml"}, "transform_declarations": {"FINAL_OUTPUT": {"xpath": "/r/a", "object": {"x": {"xpath": "b[. mod 2 = 1]"}}}}}`,
+			`{"parser_settings": {"version": "omni.2.1", "file_format_type": "xml"}, "transform_declarations": {"FINAL_OUTPUT": {"xpath": "/r/a", "object": {"x": {"xpath": ".[b mod 2 = 1]/b"}}}}}`,
+			`{"parser_settings": {"version": "omni.2.1", "file_format_type": "xml"}, "transform_declarations": {"FINAL_OUTPUT": {"xpath": "/r/a", "object": {"x": {"xpath": ".[b + 1 = 2]/b"}}}}}`,
+			`{"parser_settings": {"version": "omni.2.1", "file_format_type": "xml"}, "transform_declarations": {"FINAL_OUTPUT": {"xpath": "/r/a", "object": {"x": {"xpath": ".[b * 2 = 2]/b"}}}}}`,
+			`{"parser_settings": {"version": "omni.2.1", "file_format_type": "xml"}, "transform_declarations": {"FINAL_OUTPUT": {"xpath": "/r/a", "object": {"x": {"xpath": ".[b div 1 = 1]/b"}}}}}`,
+			`{"parser_settings": {"version": "omni.2.1", "file_format_type": "xml"}, "transform_declarations": {"FINAL_OUTPUT": {"xpath": "/r/a", "object": {"x": {"xpath": ".[-b = -1]/b"}}}}}`,
 		} {
-			sr, err := idr.NewXMLStreamReader(strings.NewReader(doc), "/*")
-			if err != nil {
-				fmt.Println(err)
-				continue
-			}
-			n, err := sr.Read()
-			fmt.Println(doc, err)
-			if err == nil {
-				fmt.Println("   ", idr.JSONify2(n))
-			}
+			o := runRobust([]byte(sc), []byte(`<r><a><b>1</b></a><a><b>2</b></a></r>`))
+			fmt.Println(o.Panic != "", strings.Split(o.Panic, "\n")[0], o.Stage, o.Site)
 		}
 		return 0
 	}
